@@ -3,7 +3,7 @@ from harness import family_check as F
 
 
 def run(ctx):
-    F.run_family_check(ctx, "C05", 170, 2500)
+    F.run_family_check(ctx, "C05", 260, 2500)
 
 
 replay = F.replay
